@@ -79,10 +79,13 @@ def value_ref(c_int, nr_int, base):
     return z3.If(c_int <= nr_int, c, (Executor.POWR(base, c - n) - 1) / (base - 1) + n)
 
 
-def ob_merge_ideal(bits, timeout_ms, only=None):
+def ob_merge_ideal(bits, timeout_ms, only=None, pin=None):
+    """pin=(a, b): the two counters are these concrete values (None = symbolic): boundary pairs such as (ceiling, 0) stay
+    cheap whatever data structure the kernel decodes through (a 256-entry lookup table read at a symbolic index is a
+    256-way case split, at a concrete index it is one entry)"""
     C = cmh.cm()
     stats = common.Stats()
-    ex = Executor(fpmode="real")
+    ex = Executor(fpmode="real", loop_bound=300)
     st = State()
     a = cmh.SymCM(st, "a", bits, 1, 1)
     b = cmh.SymCM(st, "b", bits, 1, 1)
@@ -91,6 +94,9 @@ def ob_merge_ideal(bits, timeout_ms, only=None):
     base = z3.Real("base")
     # math mode: every integer is a mathematical Int k carried as Int2BV(k, w) with its range assumed
     caI, cbI, nrI, mI = z3.Ints("ca cb num_reserved max_count")
+    if pin is not None:
+        caI = z3.IntVal(pin[0]) if pin[0] is not None else caI
+        cbI = z3.IntVal(pin[1]) if pin[1] is not None else cbI
     nA, nB = [z3.Int(f"nar_a{i}") for i in range(2)], [z3.Int(f"nar_b{i}") for i in range(2)]
     st.heap[a.cms.sid] = (z3.Int2BV(caI, bits),)
     st.heap[b.cms.sid] = (z3.Int2BV(cbI, bits),)
@@ -107,7 +113,7 @@ def ob_merge_ideal(bits, timeout_ms, only=None):
     # the same kernel the other way round (b.merge(a)) on the same symbolic cells, for commutativity
     st2 = State()
     st2.heap = dict(pre)
-    ex2 = Executor(fpmode="real")
+    ex2 = Executor(fpmode="real", loop_bound=300)
     st2.pc = [base > 1, caI >= 0, caI <= umax, cbI >= 0, cbI <= umax, nrI >= 0, nrI < umax, mI > nrI, mI < (1 << 63)]
     post2, _ = cmh.run1(ex2, disp, st2, [b.cms, a.cms, mk_int(types.uint64, 1), mk_int(types.uint64, 1), Val(types.uint64, maxc), mk_int(U, umax), Val(U, nr), Val(types.float64, base), b.nar, a.nar])
     ca, cb, res = pre[a.cms.sid][0], pre[b.cms.sid][0], post.heap[a.cms.sid][0]
